@@ -9,7 +9,7 @@ import time
 from .extract import build, ExtractError
 
 VERIF = os.path.dirname(os.path.dirname(os.path.abspath(__file__)))
-WORK = os.path.join(VERIF, 'work')
+WORK = os.environ.get('VERIF_WORK') or os.path.join(VERIF, 'work')
 
 TAG = re.compile(r'^\s*//\s*harness:\s*(.*)$')
 KVT = re.compile(r'(\w+)=("([^"]*)"|\S+)')
